@@ -9,7 +9,7 @@ from simkit import terms as T
 
 ID = "C02"
 LEVEL = "exploration"
-RUNS = {"quick": 8000, "thorough": 200000}
+RUNS = {"quick": 40000, "thorough": 800000}
 RULE = ("seeded runs of the fault-free pipeline with the rdflib integration: RDF 1.1 graph/dataset x knob "
         "swarm x entry point; non-trivial = >=2 distinct statements parsed back; distinct = distinct "
         "(configuration, statement set) pairs")
